@@ -168,8 +168,11 @@ Step ==
               LET dup == \E i \in DOMAIN e.proxies : \E a, b \in DOMAIN e.proxies[i].roles :
                               a # b /\ e.proxies[i].roles[a].node = e.proxies[i].roles[b].node
                   V == IF HasView(cur, e.cluster) THEN ViewOf(cur, e.cluster) ELSE [nodes |-> <<>>]
-                  Want(p) == {<<V.nodes[n].addr, V.nodes[n].role>> : n \in {m \in DOMAIN V.nodes : V.nodes[m].proxy = p}}
-                  Have(i) == {<<e.proxies[i].roles[k].node, e.proxies[i].roles[k].role>> : k \in DOMAIN e.proxies[i].roles}
+                  PeerStr(x) == x.node \o "@" \o x.proxy
+                  Want(p) == {<<V.nodes[n].addr, V.nodes[n].role, {PeerStr(V.nodes[n].peers[j]) : j \in DOMAIN V.nodes[n].peers}>>
+                                : n \in {m \in DOMAIN V.nodes : V.nodes[m].proxy = p}}
+                  Have(i) == {<<e.proxies[i].roles[k].node, e.proxies[i].roles[k].role,
+                                {e.proxies[i].roles[k].peers[j] : j \in DOMAIN e.proxies[i].roles[k].peers}>> : k \in DOMAIN e.proxies[i].roles}
                   differ == checking /\ HasView(cur, e.cluster) /\ \E i \in DOMAIN e.proxies : Have(i) # Want(e.proxies[i].proxy)
               IN
               /\ viol' = viol \cup (IF dup THEN {<<l, "C07.duplicate_role_record">>} ELSE {})
